@@ -182,6 +182,55 @@ def _acc(name):
             return qr.SpectralDensity(ta, dict(ftype="OverdampedBrownian", reorg=v,
                                                cortime=50.0, T=300.0))
         return (sup, lambda o: float(o.get_reorganization_energy()), lambda o: float(o.lamb))
+    if name in ("state_energy", "state_vibenergy", "vibronic_state_energy"):
+        # energy of an aggregate state with vibrational quanta: the mode frequency v is supplied
+        # under the supplying units, the electronic energy is 9 x that (set in internal units),
+        # so the state (1 electronic excitation, 1 quantum) sits at 10 v, two quanta alone at 2 v;
+        # what is read under other units is the conversion of the TOTAL (wavelengths do not add)
+        from quantarhei.builders.aggregate_states import VibronicState
+        mult = 2.0 if name == "state_vibenergy" else 10.0
+
+        def sup(v):
+            md = qr.Mode(frequency=v)
+            with qr.energy_units("int"):
+                m = qr.Molecule(elenergies=[0.0, 9.0 * float(md.submodes[0].omega)])
+            m.add_Mode(md)
+            return qr.Aggregate(molecules=[m])
+
+        def rd(o, _n=name):
+            es = o.get_ElectronicState((1,), index=1)
+            if _n == "state_energy":
+                e = float(es.energy((1,)))
+            elif _n == "state_vibenergy":
+                e = float(es.vibenergy((2,)))
+            else:
+                e = float(VibronicState(es, (1,)).energy())
+            if _mgr().get_current_units("energy") == "nm":
+                return e * mult
+            return e / mult
+        return (sup, rd, lambda o: float(o.monomers[0].get_Mode(0).submodes[0].omega))
+    if name in ("corfce_values_reorg", "corfce_values_reorg_composed"):
+        # the rarely used values= route of the constructor (explicit function values)
+        def sup(v, _n=name):
+            ta = qr.TimeAxis(0.0, 20, 1.0)
+            if _n.endswith("composed"):
+                prm = [dict(ftype="Value-defined", reorg=0.25 * v, cortime=50.0, T=300.0),
+                       dict(ftype="Value-defined", reorg=0.75 * v, cortime=80.0, T=300.0)]
+                if _mgr().get_current_units("energy") == "nm":
+                    # parts of a wavelength are not parts of an energy: one component only
+                    prm = [dict(ftype="Value-defined", reorg=v, cortime=50.0, T=300.0)] 
+            else:
+                prm = dict(ftype="Value-defined", reorg=v, cortime=50.0, T=300.0)
+            return qr.CorrelationFunction(ta, prm, values=numpy.zeros(20, dtype=complex))
+        return (sup, lambda o: float(o.get_reorganization_energy()), lambda o: float(o.lamb))
+    if name == "hamiltonian_rwa_skeleton":
+        # RWA block energies read back through get_RWA_skeleton under the reading units (the
+        # round-trip clause reads the same object a second time under other units)
+        def sup(v):
+            h = qr.Hamiltonian(data=[[0.0, 0.0, 0.0], [0.0, v, 0.0], [0.0, 0.0, v]])
+            h.set_rwa([0, 1])
+            return h
+        return (sup, lambda o: float(o.get_RWA_skeleton()[1]), lambda o: float(o.rwa_energies[1]))
     raise isolation.HarnessError(name)
 
 
@@ -190,9 +239,12 @@ ACCESSORS = ["hamiltonian", "molecule_init", "molecule_set", "mode_init", "mode_
              "frequency_axis_step", "frequency_axis_data", "corfce_reorg", "spectdens_reorg",
              "hamiltonian_rwa", "molecule_rwa", "hamiltonian_cutoff_remove",
              "aggregate_transition", "hamiltonian_array", "molecule_init_array",
-             "aggregate_coupling_matrix_array", "hamiltonian_first_read_in_eigenbasis"]
+             "aggregate_coupling_matrix_array", "hamiltonian_first_read_in_eigenbasis",
+             "state_energy", "state_vibenergy", "vibronic_state_energy", "corfce_values_reorg",
+             "corfce_values_reorg_composed", "hamiltonian_rwa_skeleton"]
 POSITIVE_ONLY = {"hamiltonian_cutoff_remove", "corfce_reorg", "spectdens_reorg", "mode_init", "mode_set", "submode", "molecule_rwa",
-                 "frequency_axis_step"}
+                 "frequency_axis_step", "state_energy", "state_vibenergy", "vibronic_state_energy",
+                 "corfce_values_reorg", "corfce_values_reorg_composed"}
 
 
 def _rel(a, b):
